@@ -10,7 +10,18 @@ use pushr::push::topology::Topology;
 
 fn radii() -> Vec<f32> {
     // exactly representable lattice distances (0,1,2,3,5) and values strictly between lattice distances
-    vec![0.0, 0.5, 1.0, 1.2, 1.6, 1.9, 2.0, 2.1, 2.5, 2.9, 3.0, 3.1, 4.0, 4.2, 4.3, 5.0, 7.0, 10.0, 100.0]
+    {
+        let mut v = vec![0.0, 0.5, 1.0, 1.2, 1.6, 1.9, 2.0, 2.1, 2.5, 2.9, 3.0, 3.1, 4.0, 4.2, 4.3, 5.0, 7.0, 10.0, 100.0];
+        // one ulp below / above lattice distances 1, sqrt 2, 2, sqrt 5
+        for d in [1.0f32, 1.4142135, 2.0, 2.236068] {
+            v.push(f32::from_bits(d.to_bits() - 1));
+            v.push(d);
+            v.push(f32::from_bits(d.to_bits() + 1));
+        }
+        v.sort_by(|a, b| a.partial_cmp(b).unwrap());
+        v.dedup();
+        v
+    }
 }
 
 fn perfect_powers(limit: usize) -> Vec<usize> {
@@ -100,7 +111,10 @@ pub fn geometry(ctx: &mut Ctx) {
                         }
                     };
                     let want = neighbors_ref(ntotal, ndim, c, r);
-                    if got != want {
+                    // points within single-precision rounding distance of the radius may be on either side
+                    let amb = refmodel::neighbors_ambiguous(ntotal, ndim, c, r);
+                    let strip = |v: &Option<Vec<i32>>| v.as_ref().map(|x| x.iter().filter(|i| !amb.contains(i)).cloned().collect::<Vec<i32>>());
+                    if strip(&got) != strip(&want) {
                         problems.push(("ball-mismatch".into(), format!("find_neighbors(ntotal {}, ndim {}, index {}, radius {}) = {:?} expected {:?} (edge {})", ntotal, ndim, c, r, got, want, e)));
                         break 'outer;
                     }
@@ -181,6 +195,59 @@ pub fn geometry(ctx: &mut Ctx) {
 }
 
 /// LIST.NEIGHBOR* by name: all operand tuples over clamping classes
+/// long one-dimensional topologies (coordinate differences beyond 46340, whose square exceeds i32) and
+/// wide two-dimensional ones: centres at both ends and in the middle, radii around the size
+pub fn long(ctx: &mut Ctx) {
+    let cases: Vec<(usize, usize)> = vec![(46_340, 1), (46_341, 1), (46_342, 1), (50_000, 1), (65_537, 1), (100_000, 1), (10_000, 2), (40_000, 2), (46_656, 3)];
+    for (ntotal, ndim) in cases {
+        let e = edge_len(ntotal, ndim);
+        let centres = [0usize, 1, ntotal / 2, ntotal - 2, ntotal - 1];
+        let rs: Vec<f32> = vec![0.0, 1.0, 2.5, (e as f32) / 2.0, e as f32 - 2.0, e as f32 - 1.0, e as f32, e as f32 + 1.0, 46_340.0, 46_341.0, 46_342.0, 1e6];
+        for c in centres {
+            let id = match ctx.take() {
+                Some(id) => id,
+                None => continue,
+            };
+            ctx.transitions += rs.len() as u64;
+            ctx.states += 1;
+            ctx.crumb(id, "long");
+            let mut problems: Vec<(String, String)> = vec![];
+            let mut prev: Option<Vec<i32>> = None;
+            let mut sizes = vec![];
+            for &r in &rs {
+                let mut sorted = rs.clone();
+                sorted.sort_by(|a, b| a.partial_cmp(b).unwrap());
+                let _ = sorted;
+                match real_neighbors(ntotal, ndim, c, r) {
+                    Err(p) => {
+                        problems.push((panic_class(&p), format!("find_neighbors({}, {}, {}, {}): {}", ntotal, ndim, c, r, p)));
+                        break;
+                    }
+                    Ok(got) => {
+                        let want = neighbors_ref(ntotal, ndim, c, r);
+                        let amb = refmodel::neighbors_ambiguous(ntotal, ndim, c, r);
+                        let strip = |v: &Option<Vec<i32>>| v.as_ref().map(|x| x.iter().filter(|i| !amb.contains(i)).cloned().collect::<Vec<i32>>());
+                        if strip(&got) != strip(&want) {
+                            let (g, w) = (got.clone().unwrap_or_default(), want.clone().unwrap_or_default());
+                            problems.push(("ball-mismatch".into(), format!("find_neighbors(ntotal {}, ndim {}, index {}, radius {}) returns {} indices (first {:?}, last {:?}), expected {} (first {:?}, last {:?})", ntotal, ndim, c, r, g.len(), g.first(), g.last(), w.len(), w.first(), w.last())));
+                            break;
+                        }
+                        sizes.push(got.as_ref().map(|g| g.len()).unwrap_or(0));
+                        prev = got;
+                    }
+                }
+            }
+            let _ = prev;
+            let v = match problems.first() {
+                None => Verdict::Pass,
+                Some((c, d)) => Verdict::fail("Topology::find_neighbors", c, d.clone()),
+            };
+            ctx.nontrivial_mark(&format!("{}|{}|{:?}", ntotal, c, sizes));
+            ctx.record(id, &format!("{}|{}|{:?}", ntotal, c, sizes), v, || format!("ntotal {} ndim {} centre {} x {} radii", ntotal, ndim, c, rs.len()));
+        }
+    }
+}
+
 pub fn instr(ctx: &mut Ctx) {
     let mut real = Real::new();
     let sizes = [-1, 0, 1, 8, 9, 27, 125];
@@ -235,6 +302,7 @@ pub fn run(ctx: &mut Ctx) {
     match ctx.family.as_str() {
         "geometry" => geometry(ctx),
         "instr" => instr(ctx),
+        "long" => long(ctx),
         f => panic!("unknown family {}", f),
     }
 }
